@@ -468,3 +468,14 @@ def textsize(chk, repo, rule):
     else:
         chk.violation(rule, tp.node, "TextIOPayload.size (inherited: fstat size - tell)", "None when file encoding != payload encoding",
                       "a text-mode file opened with another encoding (latin-1 text sent as utf-8) declares its on-disk size but writes the re-encoded text: Content-Length / multipart size are smaller than the bytes written and the tail is cut off or spills into the next message")
+    # the same holds for what text mode does besides decoding: universal newlines turn CRLF into LF on read, an error handler may replace
+    # bytes - the encoded text is then not the file's bytes even under one codec (known finding F130)
+    if sz is not None:
+        nums = [r for r in ast.walk(sz.node) if isinstance(r, ast.Return) and not (isinstance(r.value, ast.Constant) and r.value.value is None)]
+        aware = [r for r in nums if any("newline" in l.text or "errors" in l.text for c in PC.pc(r, raw=True) for l in c)]
+        for r in nums:
+            if r in aware:
+                chk.ok(rule + ".newline", r, "a size is declared only when newline translation / error replacement are excluded")
+            else:
+                chk.violation(rule + ".newline", r, "return super().size", "None (a text-mode stream cannot promise its encoded length)",
+                              "TextIOPayload.size is the on-disk size whenever the codecs agree, but text mode also translates newlines and applies an error handler: a 10-byte CRLF file opened with open(p) writes 8 bytes under `Content-Length: 10` (the peer stalls), with errors='replace' 5 bytes go out under a size of 3; multipart part lengths are wrong the same way")
